@@ -18,6 +18,10 @@ CHECKS = {
    text='IdManager.tla defines identification by name (tables are a function of the set of leaves, entry k belongs to the k-th name in Python string order, dictionaries override exactly the names they list, optimum attached to the role name); TLC checks order-irrelevance, sortedness, attachment and renaming invariance for every injective renaming into an order-tricky name pool x order of appearance x status x bounds x partial dictionary; every behaviour is replayed into BIOGEME.free_beta_names, get_bounds_on_beta, calculate_likelihood, simulate(dict), get_value_c(partial dict), change_init_values, fix_betas, the vectors and Beta lines crossing the engine boundary, estimate() on a sample; name clashes must raise BiogemeError.',
    note='trusted: TLC; exact rational likelihood of a separable concave quadratic model compared at 1e-12, estimates at 1e-4; dictionaries naming a fixed parameter are not used',
    technique='TLA+ spec IdManager + TLC enumeration of renamings/orders, spec->code replay incl. engine-boundary vectors', ref='5 C03'),
+ 'C04': dict(
+   text='Aggregation.tla: TLC explores every split of the rows into contiguous blocks and every interleaving of the threads (the schedule quantifier) and the engine source partition rule for all N,T in a range: total = sum of weight x value, each row exactly once, termination; AggData.tla emits every permutation of every subset of a row pool with exact expected value/gradient/Hessian/BHHH aggregates (weighted or not, every prefix split); each is replayed into BIOGEME.calculate_likelihood, calculate_likelihood_and_derivatives (scaled or not) and simulate for thread counts 1..N+2 and 0, repeated for T>1, with the engine-boundary calls (thread count, weight signature, data rows) checked.',
+   note='trusted: TLC; the engine internal schedule is not observable from Python (Dispatch is its contract); integer-valued polynomial likelihood compared at 1e-12',
+   technique='TLA+ specs Aggregation/AggPartition/AggData + TLC schedule exploration, spec->code replay over thread counts', ref='5 C04'),
 }
 
 def cmd(pid, tier):
